@@ -192,11 +192,13 @@ pub struct LoginParams {
     pub wait: Duration,
     /// the client waits this long before it answers the authentication cookie request
     pub auth_cookie_delay: Duration,
+    /// the shared secret this client chooses
+    pub secret: [u8; 16],
 }
 
 impl Default for LoginParams {
     fn default() -> Self {
-        Self { intent: 2, host: "play.example".into(), port: 25565, name: "NetPlayer".into(), uuid: 0x069a79f4_44e9_4726_a5be_fca90e38aaf5, auth_cookie: None, wait: Duration::from_secs(2), auth_cookie_delay: Duration::ZERO }
+        Self { intent: 2, host: "play.example".into(), port: 25565, name: "NetPlayer".into(), uuid: 0x069a79f4_44e9_4726_a5be_fca90e38aaf5, auth_cookie: None, wait: Duration::from_secs(2), auth_cookie_delay: Duration::ZERO, secret: SECRET16 }
     }
 }
 
@@ -262,10 +264,10 @@ impl McClient {
             };
             let key = RsaPublicKey::from_public_key_der(&key).expect("server key");
             let mut rng = UnwrapErr(rand::rngs::SysRng);
-            let s = key.encrypt(&mut rng, Pkcs1v15Encrypt, &SECRET16).expect("rsa");
+            let s = key.encrypt(&mut rng, Pkcs1v15Encrypt, &p.secret).expect("rsa");
             let t = key.encrypt(&mut rng, Pkcs1v15Encrypt, &token).expect("rsa");
             tri!(self.send(&codec::sb_encryption_response(&s, &t)).await.map_err(io));
-            self.enable_encryption(&SECRET16);
+            self.enable_encryption(&p.secret);
             let pk = tri!(self.read_packet(p.wait).await);
             let ok = matches!(pk, Pkt::LoginSuccess { .. });
             out.packets.push(pk);
